@@ -11,6 +11,8 @@ from vlib.common import digest
 def gen_config(rng, tier, versions=(0, 0, 1, 2), dims=(2, 2, 2, 3, 3, 4), boundary_choices=(True, True, False)):
     d = rng.choice(dims)
     lmin, lmax = rng.choice([(1, 2), (1, 2), (1, 3), (2, 3)])
+    if d == 2 and rng.random() < 0.1:
+        lmin, lmax = rng.choice([(2, 4), (1, 4), (3, 4), (3, 5)])      # high start levels / large level differences
     if d == 4:
         lmin, lmax = rng.choice([(1, 2), (2, 3)])
     kind, a, b = hooks.gen_box(rng, d, ["unit", "unit", "shifted", "negative", "aniso", "dyadic", "tiny", "huge"])
